@@ -2,8 +2,10 @@ package main
 
 import (
 	"context"
+	"encoding/json"
 	"fmt"
 	"io"
+	"os"
 	"strings"
 	"sync"
 	"time"
@@ -194,4 +196,31 @@ func engineHold(f *rep.Flags, res *rep.Result) {
 	}
 	res.Distinct = res.Evaluations
 	res.Bounds["cases"] = len(cases)
+}
+
+func replayHold(f *rep.Flags) int {
+	logrus.SetOutput(io.Discard)
+	b, err := os.ReadFile(f.Replay)
+	if err != nil {
+		rep.Fatal(f, "%v", err)
+	}
+	var w struct {
+		Property string `json:"property"`
+		Replay   struct {
+			Hold holdCase `json:"hold"`
+		} `json:"replay"`
+	}
+	if err := json.Unmarshal(b, &w); err != nil {
+		rep.Fatal(f, "%v", err)
+	}
+	v, _ := runHold(w.Property, w.Replay.Hold, 300*time.Millisecond)
+	for _, m := range v {
+		fmt.Println("  ", m)
+	}
+	if len(v) > 0 {
+		fmt.Printf("VIOLATION property=%s replay=%s\n", w.Property, f.Replay)
+		return 1
+	}
+	fmt.Println("no violation")
+	return 0
 }
